@@ -310,13 +310,13 @@ def check(spec, ctx):
             def handler(signum, frame):
                 raise gc._Timeout()
             old = signal.signal(signal.SIGALRM, handler)
-            signal.alarm(40)
+            signal.setitimer(signal.ITIMER_REAL, 40, 1.0)
             try:
                 gcm.gen_coords(**kwargs)
             except gc._Timeout:
                 raise Inconclusive("gen_coords timed out")
             finally:
-                signal.alarm(0)
+                signal.setitimer(signal.ITIMER_REAL, 0)
                 signal.signal(signal.SIGALRM, old)
         else:
             from polyply.src.gen_seq import gen_seq
